@@ -192,7 +192,7 @@ def main():
     res = ck.step_generate('Gen_C12', TARGETS)
     if res is not None:
         ck.step_prove('P_C12')
-    n = 400 if ck.thorough() else 90
+    n = 1600 if ck.thorough() else 90
     goals = run_cases(ck, res, n, 12 if ck.thorough() else 4)
     if res is not None:
         ck.step_interval_goals('corr', goals)
